@@ -613,7 +613,24 @@ def pair_case(s1, s2, tier, ctx, route='num'):
               lambda: pair_tags('SUB', s1, s2, 'dt' if not formula else
                                 route), inp, nontriv)
     if s1 > s2:
-        ctx.skip('datedif-yearfrac-start-after-end', 8)
+        ctx.skip('datedif-start-after-end', 3)
+        if not formula:
+            # YEARFRAC with the later date first: the statement fixes no
+            # sign, but the size is the size of the count the other way round
+            for basis in (0, 1, 4):
+                rev = lib.call('YEARFRAC', arg(s1), arg(s2), basis)
+                fwd = lib.call('YEARFRAC', arg(s2), arg(s1), basis)
+                key = pre + 'YEARFRAC-reversed/b=%d' % basis
+                if not (rev.startswith('num:') and fwd.startswith('num:')):
+                    ctx.skip('yearfrac-reversed-not-a-number')
+                    continue
+                if abs(float(rev[4:])) == float(fwd[4:]):
+                    ctx.ok(key, rev, True)
+                else:
+                    ctx.fail(key, sorted(pair_tags(
+                        'YEARFRAC', s1, s2, route,
+                        {'basis:%d' % basis, 'order:later-date-first'})), inp,
+                        '+-%s' % fwd, rev, True)
         return
     y1, m1, d1 = ref.fields(s1)
     # DATEDIF
